@@ -27,10 +27,12 @@ ASSUMPTIONS = [
     "no photon in any loss mode at the output (lossy components present but heralded amplitudes "
     "are the lossless branch)",
 ]
-TOL = 1e-6
+TOL = 1e-6          # when a beam splitter sits within 1e-6 of full reflection (ill-conditioned arccos, see C01)
+TOL_TIGHT = 1e-9    # everywhere else
 
 
-def compare(c, w, iseed, max_inputs=12, photons=(1, 2)):
+def compare(c, w, iseed, max_inputs=12, photons=(1, 2), tol=None):
+    tol = TOL if tol is None else tol
     nv = w.n_visible
     if c.input_modes != nv:
         raise Violation(f"input_modes={c.input_modes}, wiring model has {nv} visible modes",
@@ -62,7 +64,7 @@ def compare(c, w, iseed, max_inputs=12, photons=(1, 2)):
                 b = w.heralded_amp(vin, vout)
                 n_cmp += 1
                 d = abs(a - b)
-                if not d <= TOL:
+                if not d <= tol:
                     raise Violation(
                         f"heralded amplitude {list(vin)}->{list(vout)}: real {a:.6g}, "
                         f"composed wiring {b:.6g}", key="amplitude-mismatch")
@@ -93,7 +95,7 @@ def run_tree(case):
     w = build_model(prog)
     if case.get("np_modes"):
         labels.add("numpy-int64-modes")
-    compare(c, w, case["iseed"])
+    compare(c, w, case["iseed"], tol=TOL if gen.near_full_reflection(prog) else TOL_TIGHT)
     s = gen.program_stats(prog)
     if s["inout"]:
         labels.add("herald-in!=out")
@@ -145,7 +147,7 @@ def run_plus(case):
                         "private ancillas: its components cannot have been placed on user-visible modes only",
                         key="plus-on-ancilla-modes")
     w = build_model(prog)
-    compare(total, w, case["iseed"])
+    compare(total, w, case["iseed"], tol=TOL if gen.near_full_reflection(prog) else TOL_TIGHT)
     return {"nontrivial": has_anc, "labels": ["plus-accepted"]}
 
 
@@ -189,7 +191,8 @@ def run_two(case):
     prog = case["prog"]
     c = call("build", build_real, prog)
     w = build_model(prog)
-    compare(c, w, 0, photons=(1,) if prog["n"] > 2 else (1, 2))
+    compare(c, w, 0, photons=(1,) if prog["n"] > 2 else (1, 2),
+            tol=TOL if gen.near_full_reflection(prog) else TOL_TIGHT)
     hs = prog["ops"][1][1]["ops"][1:]
     labels = []
     if any(h[2] != h[3] for h in hs):
